@@ -164,9 +164,9 @@ prop("C14",
      min_nontrivial=10000)
 
 prop("C15",
-     quick=[rapid("TestC15Pipe", 20000), rapid("TestC15Subst", 20000)],
-     thorough=[rapid("TestC15Pipe", 100000, shards=8), rapid("TestC15Subst", 100000, shards=8)],
-     rule="rapid: (a) pairs (A, B), B generated against the value of A: Search('(A) | (B)', d) vs Search(B, Search(A, d)): equal values, error exactly when a step errors; (b) sub-expression S in one of 26 root-evaluated contexts C (pipe left, ||/&& operands, multi-select members, function arguments, comparator operands, projection left-hand sides, ...): Search(C[S], d) vs Search(C[literal(Search(S, d))], d). The library is compared with itself; the reference model only supplies the ambiguity verdict and the bag structure for order-insensitive comparison. Non-trivial: A non-identity with non-null result and B not a literal; S not already a literal.",
+     quick=[rapid("TestC15Pipe", 20000), rapid("TestC15Subst", 20000), plain("TestC15Shapes", shards=6)],
+     thorough=[rapid("TestC15Pipe", 100000, shards=8), rapid("TestC15Subst", 100000, shards=8), plain("TestC15Shapes", shards=6)],
+     rule="rapid: (a) pairs (A, B), B generated against the value of A: Search('(A) | (B)', d) vs Search(B, Search(A, d)): equal values, error exactly when a step errors; (b) sub-expression S in one of 26 root-evaluated contexts C (pipe left, ||/&& operands, multi-select members, function arguments, comparator operands, projection left-hand sides, ...): Search(C[S], d) vs Search(C[literal(Search(S, d))], d). (c) shape grid: every projection-shape expression A (16 left-hand sides x 18 projection operator chains x 18 right-hand sides) piped into 20 short right-hand sides B ([0], [-1], length(@), [?@], type(@), ...) on 11 documents with null-producing elements. The library is compared with itself; the reference model only supplies the ambiguity verdict and the bag structure for order-insensitive comparison. Non-trivial: A non-identity with non-null result and B not a literal; S not already a literal.",
      technique="algebraic laws checked on the library itself (metamorphic): pipe splitting and literal substitution",
      level_text="Metamorphic relations over generated expressions and documents; no expected answers needed.",
      min_nontrivial=3000)
@@ -188,9 +188,9 @@ prop("C17",
      min_nontrivial=5000)
 
 prop("C18",
-     quick=[rapid("TestC18Equiv", 20000), rapid("TestC18Lowercase", 10000), rapid("TestC18NoPanic", 20000), plain("TestC18HandWritten"), plain("TestC18Slices")],
-     thorough=[rapid("TestC18Equiv", 100000, shards=8), rapid("TestC18Lowercase", 50000, shards=2), rapid("TestC18NoPanic", 100000, shards=6), plain("TestC18HandWritten"), plain("TestC18Slices")],
-     rule="rapid: struct types built at run time (reflect.StructOf / SliceOf / PointerTo): nested structs by value and by pointer (nil and non-nil), non-nil slices of structs / pointers (with nil elements) / strings / float64 / slices, scalar leaves string, float64, bool, int; root by value or by pointer; values filled by rapid; generic twin = JSON round trip of the Go value. (a) navigational fragment (exact field names, index, slice, flatten, list and filter projections with !/||/&& conditions, multi-select, pipe, length() of slices and strings): JSON-normalised struct result == generic result, error presence equal; (b) lower-case first letter: same result as the exported spelling on the struct form; (c) all-function document-aware expressions: no panic; (d) hand-written types (unexported, embedded, caseless-script fields, nil roots/elements) x ~100 expressions x 4 contexts: no panic, nil pointers behave as null; (e) 6 typed-slice fields x 14^3 slice parameter triples (window and 64-bit boundary values) and indices: struct form == generic form. Non-trivial: the type contains a pointer or typed slice and the generic result is non-null or the document contains a null.",
+     quick=[rapid("TestC18Equiv", 20000), rapid("TestC18Lowercase", 10000), rapid("TestC18NoPanic", 20000), plain("TestC18HandWritten"), plain("TestC18Slices"), plain("TestC18Rich", shards=4)],
+     thorough=[rapid("TestC18Equiv", 100000, shards=8), rapid("TestC18Lowercase", 50000, shards=2), rapid("TestC18NoPanic", 100000, shards=6), plain("TestC18HandWritten"), plain("TestC18Slices"), plain("TestC18Rich", shards=4)],
+     rule="rapid: struct types built at run time (reflect.StructOf / SliceOf / PointerTo): nested structs by value and by pointer (nil and non-nil), non-nil slices of structs / pointers (with nil elements) / strings / float64 / slices, scalar leaves string, float64, bool, int; root by value or by pointer; values filled by rapid; generic twin = JSON round trip of the Go value. (a) navigational fragment (exact field names, index, slice, flatten, list and filter projections with !/||/&& conditions, multi-select, pipe, length() of slices and strings): JSON-normalised struct result == generic result, error presence equal; (b) lower-case first letter: same result as the exported spelling on the struct form; (c) all-function document-aware expressions: no panic; (d) hand-written types (unexported, embedded, caseless-script fields, nil roots/elements) x ~100 expressions x 4 contexts: no panic, nil pointers behave as null; (e) 6 typed-slice fields x 14^3 slice parameter triples (window and 64-bit boundary values) and indices: struct form == generic form; (f) navigational shape grid (16 left-hand sides x 23 navigation/projection chains x 22 right-hand sides x 8 terminators) on a rich hand-written document with nil pointers inside typed slices reached through projections, nested typed slices and pointer chains. Non-trivial: the type contains a pointer or typed slice and the generic result is non-null or the document contains a null.",
      technique="differential struct form vs generic JSON form over run-time generated struct types (rapid + reflect.StructOf), recover() for the no-panic half",
      level_text="Types and values are generated; comparators, object wildcards, functions other than length, nil slices and pointer-to-pointer fields are outside the property's domain and are not asserted.",
      min_nontrivial=3000)
